@@ -151,6 +151,7 @@ type wWorld struct {
 	watchdog *time.Timer
 	noteSeq  func(route string, sel int) int // symbolic seq of a {note} (op.M): set by the C15 observer
 	files    []string                        // urls of uploads made by "upload" ops
+	fileLocs []string                        // where their bytes are, removed at shutdown
 }
 
 const wStoreCfg = `{"uid_key":"la6YsO+bNX/+XIkOqc5Svw==","max_results":1024,"use_adapter":"verifmem"}`
@@ -298,6 +299,9 @@ func wBoot(cfg wConfig) *wWorld {
 // shutdown closes every session, stops hub and user cache. The bubble must then end clean.
 func (w *wWorld) shutdown() {
 	defer func() { wLastElapsed = time.Since(wCaseStart) }()
+	for _, loc := range w.fileLocs {
+		os.Remove(loc)
+	}
 	defer w.watchdog.Stop()
 	for _, ss := range w.sess {
 		w.disconnect(ss)
